@@ -17,6 +17,10 @@ import subprocess
 import pipeline as pl
 import checks_codec as cc
 
+# VERIF_FRAMING_REUSE=<kept work dir of an earlier run>: skip behaviour generation and replay the
+# generated behaviours of that run (used by the sensitivity demonstrations on mutated copies of the repository)
+REUSE = os.environ.get('VERIF_FRAMING_REUSE', '')
+
 # TLC workers of the generator runs (trace validation always runs one worker per shard)
 TLC_WORKERS = min(pl.NPROC, int(os.environ.get('VERIF_TLC_WORKERS', str(pl.NPROC))))
 
@@ -102,11 +106,20 @@ def small(cases, cap):
     return [c for c in cases if len(json.dumps([c['env'], c['vals']])) <= cap]
 
 
+def new_run(prop, tier, seed):
+    run = pl.Run(prop, tier, seed)
+    if os.environ.get('VERIF_KEEP'):          # keep the generated behaviours (see REUSE)
+        run.cleanup = lambda: None
+    return run
+
+
 def c04(tier, seed):
-    run = pl.Run('C04', tier, seed)
+    run = new_run('C04', tier, seed)
     try:
         # plans: (name, cases, R, all cut points, values per case, simulate, depth)
-        if tier == 'smoke':       # a small universe for sensitivity demonstrations
+        if REUSE:
+            shallow, deep, plans = [], [], []
+        elif tier == 'smoke':       # a small universe for sensitivity demonstrations
             shallow = typegen(run, [(1, False, ['E'], None)], 'g')[::4]
             deep = []
             plans = [('bfs1', shallow, 1, False, 3, None, None)]
@@ -136,7 +149,7 @@ def c04(tier, seed):
         cpath = run.path('cases.ndjson')
         pl.write_cases(cases, cpath)
         outs = []
-        for name, sub, steps, cuts, mv, sim, depth in plans:
+        for name, sub, steps, cuts, mv, sim, depth in ([] if REUSE else plans):
             sub = unique_cases(sub)
             spath = run.path('cases_%s.ndjson' % name)
             pl.write_cases(sub, spath)
@@ -145,12 +158,23 @@ def c04(tier, seed):
                                        timeout=6000, what='TlvRewrite %s: %d cases, R=%d (ModelOk on every variant)'
                                        % (name, len(sub), steps))
             outs.append(out)
-        nvar = merge_lines(outs, run.path('variants.ndjson'))
-        shards = pl.drive(run, 'drive_rewrite.py', cpath, 'trace', ['--variants', run.path('variants.ndjson')])
+        if REUSE:    # generated behaviours of an earlier run of the same tier and seed (they do not depend on /repo)
+            cpath, vpath = os.path.join(REUSE, 'cases.ndjson'), os.path.join(REUSE, 'variants.ndjson')
+            nvar = sum(1 for l in open(vpath))
+        else:
+            vpath = run.path('variants.ndjson')
+            nvar = merge_lines(outs, vpath)
+        shards = pl.drive(run, 'drive_rewrite.py', cpath, 'trace', ['--variants', vpath])
         # binding B: encodings the repository's tests decode, rewritten type-agnostically by TLC
-        fx_cases, fx_meta, nfx = record_fixtures(run, fx_max, fx_len)
         fshards = []
-        if nfx:
+        if REUSE:
+            fx_meta = os.path.join(REUSE, 'fx', 'fx_meta.ndjson')
+            nfx = sum(1 for l in open(fx_meta))
+            fshards = pl.drive(run, 'drive_rewrite.py', fx_meta, 'fxtrace',
+                               ['--variants', os.path.join(REUSE, 'fxvariants.ndjson')])
+        else:
+            fx_cases, fx_meta, nfx = record_fixtures(run, fx_max, fx_len)
+        if nfx and not REUSE:
             fouts = []
             for name, cfg, sim, depth in fx_plans:
                 out, res = pl.tlc_generate(run, 'TlvRewrite', cfg, 'var_%s.ndjson' % name, workers=TLC_WORKERS,
@@ -181,7 +205,7 @@ def c04(tier, seed):
         run.notes['top_shapes'] = dict(sorted(shapes.items(), key=lambda kv: -kv[1])[:25])
         run.assumptions = ASSUMPTIONS
         return pl.finish(run, rule=(
-            'start trees: DER trees of TypeGen values (BFS + simulation, seed %d) and the certificates of tests/files; '
+            'start trees: DER trees of TypeGen values (BFS + simulation, seed %d) and the encodings tests/test_ber.py decodes; '
             'variants: every tree reachable by <= R rewrite steps (BFS) plus random mixtures (simulation) of '
             'SetLength / SegmentNest / SegmentFlat / SegmentNone / PermuteSet on any node; an observation is one '
             'distinct rewritten encoding decoded by the BER decoder; distinct non-trivial = distinct (type, value, '
@@ -202,9 +226,11 @@ def probe_cfg(mode, classes, seed, max_vals, max_len=70000):
 
 
 def c15(tier, seed):
-    run = pl.Run('C15', tier, seed)
+    run = new_run('C15', tier, seed)
     try:
-        if tier == 'smoke':       # a small universe for sensitivity demonstrations
+        if REUSE:
+            classes, max_vals, max_len, cases = [], 0, 0, []
+        elif tier == 'smoke':       # a small universe for sensitivity demonstrations
             classes, max_vals, max_len = ['C'], 2, 256
             cases = typegen(run, [(1, False, ['E'], None)], 'g')[::6]
         elif tier == 'quick':
@@ -218,14 +244,19 @@ def c15(tier, seed):
         pl.write_cases(cases, cpath)
         empty = run.path('empty.ndjson')
         open(empty, 'w').close()
-        out_a, _ = pl.tlc_generate(run, 'LengthProbe', probe_cfg('abs', classes, seed, max_vals, max_len), 'msgs_abs.ndjson',
-                                   workers=TLC_WORKERS, env={'CASES_FILE': empty}, timeout=3000,
-                                   what='LengthProbe abstract messages (ProbeOk, Monotone on every prefix state)')
-        out_t, _ = pl.tlc_generate(run, 'LengthProbe', probe_cfg('typed', classes, seed, max_vals, max_len), 'msgs_typed.ndjson',
-                                   workers=TLC_WORKERS, env={'CASES_FILE': cpath}, timeout=3000,
-                                   what='LengthProbe typed messages (ProbeOk, Monotone on every prefix state)')
-        nmsg = merge_lines([out_a, out_t], run.path('msgs.ndjson'))
-        shards = pl.drive(run, 'drive_probe.py', cpath, 'trace', ['--msgs', run.path('msgs.ndjson')])
+        if REUSE:
+            cpath, mpath = os.path.join(REUSE, 'cases.ndjson'), os.path.join(REUSE, 'msgs.ndjson')
+            nmsg = sum(1 for l in open(mpath))
+        else:
+            mpath = run.path('msgs.ndjson')
+            out_a, _ = pl.tlc_generate(run, 'LengthProbe', probe_cfg('abs', classes, seed, max_vals, max_len), 'msgs_abs.ndjson',
+                                       workers=TLC_WORKERS, env={'CASES_FILE': empty}, timeout=3000,
+                                       what='LengthProbe abstract messages (ProbeOk, Monotone on every prefix state)')
+            out_t, _ = pl.tlc_generate(run, 'LengthProbe', probe_cfg('typed', classes, seed, max_vals, max_len), 'msgs_typed.ndjson',
+                                       workers=TLC_WORKERS, env={'CASES_FILE': cpath}, timeout=3000,
+                                       what='LengthProbe typed messages (ProbeOk, Monotone on every prefix state)')
+            nmsg = merge_lines([out_a, out_t], mpath)
+        shards = pl.drive(run, 'drive_probe.py', cpath, 'trace', ['--msgs', mpath])
         cfg = ('SPECIFICATION TraceSpec\nCONSTANTS\n  Mode = "trace"\n  Classes = {}\n  Seed = %d\n  MaxLen = 0\n  Dense = 300\n'
                '  MaxVals = 0\nPOSTCONDITION TraceAccepted\nCHECK_DEADLOCK FALSE\n' % (seed % 1000000))
         reports = pl.validate(run, 'Trace_Probe', cfg, shards, what='Trace_Probe')
